@@ -129,6 +129,13 @@ class _Logger:
     info = warning = warn = error = exception = log = debug
 
 
+def _weakref_ns():
+    class _WD(dict):
+        """WeakKeyDictionary / WeakValueDictionary of the model: the model objects live as long as the scenario"""
+    return _NS(WeakKeyDictionary=lambda *a: _WD(), WeakValueDictionary=lambda *a: _WD(), WeakSet=lambda *a: set(),
+               ref=lambda o, *a: (lambda: o))
+
+
 def _logging_ns(debug_on):
     lg = _Logger(debug_on)
     return _NS(getLogger=lambda *a: lg, DEBUG=10, INFO=20, WARNING=30, ERROR=40, CRITICAL=50, basicConfig=lambda *a, **k: None)
@@ -258,7 +265,7 @@ def model_copy(ctx, rep, direction):
                 conn_obj = _NS(modules=_NS(os=_os_ns(remote), glob=_NS(glob=remote.glob)), builtin=_NS(open=remote.open),
                                builtins=_NS(open=remote.open))
                 extra = {"__calls__": {}, "__max_iter__": 5000}
-                glob = {"os": _os_ns(local), "open": local.open, "glob": _NS(glob=local.glob), "logging": _logging_ns(debug_on)}
+                glob = {"os": _os_ns(local), "open": local.open, "glob": _NS(glob=local.glob), "logging": _logging_ns(debug_on), "weakref": _weakref_ns()}
                 for nm, f in fnodes.items():
                     glob[nm] = (lambda f: lambda *a, **k: MI.call_function(f.node, list(a), extra, k))(f)
                 extra["__globals__"] = glob
@@ -300,6 +307,33 @@ def model_copy(ctx, rep, direction):
                         bad.append("%s: file opened in text mode %s (newline translation / decoding: not byte for byte)" % (label, sorted(modes)))
                     if src_fs.files != sfiles or src_fs.dirs != sdirs:
                         bad.append("%s: the source tree was modified" % label)
+    # the same transfer again over the SAME connection after the destination tree has been removed in the meantime (whatever the
+    # first run remembered about the destination - directories it created, files it considered current - is stale)
+    runs += 1
+    sfiles, sdirs = _tree("src")
+    src_fs = _FS(sfiles, sdirs)
+    dst_fs = _FS({}, {"out"})
+    local, remote = (src_fs, dst_fs) if direction == "upload" else (dst_fs, src_fs)
+    conn_obj = _NS(modules=_NS(os=_os_ns(remote), glob=_NS(glob=remote.glob)), builtin=_NS(open=remote.open), builtins=_NS(open=remote.open))
+    extra = {"__calls__": {}, "__max_iter__": 5000}
+    glob = {"os": _os_ns(local), "open": local.open, "glob": _NS(glob=local.glob), "logging": _logging_ns(False), "weakref": _weakref_ns()}
+    for nm, f in fnodes.items():
+        glob[nm] = (lambda f: lambda *a, **k: MI.call_function(f.node, list(a), extra, k))(f)
+    extra["__globals__"] = glob
+    extra["__global_lookup__"] = _glookup(ctx, mod, extra)
+    try:
+        MI.call_function(top.node, [conn_obj, "src", "out/copy"], extra, {"chunk_size": 256})
+        dst_fs.files.clear()
+        dst_fs.dirs.clear()
+        dst_fs.dirs.add("out")
+        MI.call_function(top.node, [conn_obj, "src", "out/copy"], extra, {"chunk_size": 256})
+        want_f, want_d = _expected(sfiles, sdirs, "src", "out/copy", None)
+        got_d = {d for d in dst_fs.dirs if d != "out"}
+        if dst_fs.files != want_f or got_d != want_d:
+            miss = sorted((set(want_f) - set(dst_fs.files)) | {d + "/" for d in want_d - got_d})
+            bad.append("%s of a tree repeated on the same connection after the destination was removed: %s missing" % (direction, miss[:5]))
+    except MI.Raised as r_:
+        bad.append("%s of a tree repeated on the same connection after the destination was removed raises %s" % (direction, r_.name))
     # a transfer that cannot succeed (a nested destination name is occupied by a directory) must not be reported as done
     runs += 1
     sfiles, sdirs = _tree("src")
@@ -308,7 +342,7 @@ def model_copy(ctx, rep, direction):
     local, remote = (src_fs, dst_fs) if direction == "upload" else (dst_fs, src_fs)
     conn_obj = _NS(modules=_NS(os=_os_ns(remote), glob=_NS(glob=remote.glob)), builtin=_NS(open=remote.open), builtins=_NS(open=remote.open))
     extra = {"__calls__": {}, "__max_iter__": 5000}
-    glob = {"os": _os_ns(local), "open": local.open, "glob": _NS(glob=local.glob), "logging": _logging_ns(False)}
+    glob = {"os": _os_ns(local), "open": local.open, "glob": _NS(glob=local.glob), "logging": _logging_ns(False), "weakref": _weakref_ns()}
     for nm, f in fnodes.items():
         glob[nm] = (lambda f: lambda *a, **k: MI.call_function(f.node, list(a), extra, k))(f)
     extra["__globals__"] = glob
@@ -330,7 +364,7 @@ def model_copy(ctx, rep, direction):
         conn_obj = _NS(modules=_NS(os=_os_ns(remote), glob=_NS(glob=remote.glob)), builtin=_NS(open=remote.open),
                        builtins=_NS(open=remote.open))
         extra = {"__calls__": {}}
-        glob = {"os": _os_ns(local), "open": local.open, "glob": _NS(glob=local.glob), "logging": _logging_ns(False)}
+        glob = {"os": _os_ns(local), "open": local.open, "glob": _NS(glob=local.glob), "logging": _logging_ns(False), "weakref": _weakref_ns()}
         for nm, f in fnodes.items():
             glob[nm] = (lambda f: lambda *a, **k: MI.call_function(f.node, list(a), extra, k))(f)
         extra["__globals__"] = glob
